@@ -49,6 +49,8 @@ EXTRA = {
     "FloatPayloadSink": Entry("psink", "Float", "Float", ()),
     "VLedgerPayloadSink": Entry("psink", "Float", "Float", ()),
     "VNoDocPayloadSink": Entry("psink", "Float", "Float", ()),
+    "VLabSrc": Entry("source", "NoData", "Float", (("value", 1.0), ("context", "lab"))),          # IO components with a parameter NAMED ``context``
+    "VAuditedSink": Entry("sink", "Float", "Float", (("context", "audit"),)),
     "ModelFittingContextProcessor": Entry("ctx", "Any", None,
                                           (("x_values", REQ), ("y_values", REQ), ("fitting_model", REQ)),
                                           ("fit.parameters",)),
